@@ -124,7 +124,7 @@ fn bounds(op: &Op, tier: Tier) -> Vec<(u32, u32)> {
         },
         Op::Flatten => {
             if q {
-                vec![(5, 3)]
+                vec![(4, 3), (5, 2)]
             } else {
                 vec![(7, 3), (6, 4)]
             }
@@ -134,6 +134,13 @@ fn bounds(op: &Op, tier: Tier) -> Vec<(u32, u32)> {
                 vec![(5, 3)]
             } else {
                 vec![(7, 4)]
+            }
+        },
+        Op::Net(_) => {
+            if q {
+                vec![(4, 2)]
+            } else {
+                vec![(6, 3)]
             }
         },
     }
@@ -183,6 +190,36 @@ pub fn proto_worlds(tier: Tier, with_foreach: bool, with_sources: bool) -> Vec<W
             }
             if probes == 1 {
                 s.cfg.e += 1;
+            }
+        }));
+    }
+    // two-stage compositions and networks of several operators
+    let bx = |o: Op| Box::new(o);
+    for op in [
+        Op::Comp(bx(Op::Take(2)), bx(Op::Filter(Pred::Even))),
+        Op::Comp(bx(Op::Skip(1)), bx(Op::Take(2))),
+        Op::Comp(bx(Op::Filter(Pred::Odd)), bx(Op::Scan(0))),
+        Op::Comp(bx(Op::Take(1)), bx(Op::Skip(1))),
+    ] {
+        v.extend(with_bounds(op, tier, |s| {
+            s.cfg.e = s.cfg.e.saturating_sub(1);
+        }));
+    }
+    for n in crate::worlds::NETS {
+        v.extend(with_bounds(Op::Net(n), tier, |s| {
+            if s.name.contains("share") {
+                s.cfg.max_probes = 2;
+                s.cfg.cross_dispose = true;
+            }
+            if s.name.contains("flatten") {
+                s.cfg.inner_pool = 2;
+            }
+            // late greeting only for puppets that are (through tolerant pass-through stages) direct
+            // members of a merge whose output is not behind share/concat
+            if s.name.contains("take2(merge2)") || s.name.contains("merge2(map,skip1)") {
+                s.cfg.late = vec![true, true, false];
+            } else if s.name.contains("merge2(.,concat2)") {
+                s.cfg.late = vec![true, false, false];
             }
         }));
     }
